@@ -63,7 +63,7 @@ RESULTS = {
               ("detected", "C09", ["h_lib_dump_name"], "a 65536-byte name was refused")),
     "C09-B": ("C09", "finalize() sets Finalized before checking for open files",
               "start_file, refused finalize, then further calls",
-              ("missed", "ArchiveWriter state handling needs HashMap::new()/RandomState: harness h_lib_writer_refused did not finish; API level is outside the claim")),
+              ("detected", "C09", ["h_lib_writer_refused"], "append after a refused finalize: WrongArchiveWriterState { current_state: Finalized }")),
     "C10-A": ("C10", "compression seek forward-skip shortcut computes the current block from underlayer_pos instead of the decompressor's block",
               "block consumed to its last byte, file abandoned, seek into the next block",
               ("detected", "C10", ["h_cmp_seek_start"], "after reading block 0 to its last byte, seek(Start) then read failed: WrongReaderState(Too much data read)")),
@@ -84,7 +84,7 @@ RESULTS = {
               ("detected", "C13", ["h_enc_load_auth_refines_short"], "inner stream at 7, expected 10")),
     "C14-A": ("C14", "compression writer skips the brotli flush when the block holds exactly 4 MiB",
               "flush with an exact multiple of 4 MiB in the compression layer, then cut",
-              ("missed", "CompressionLayerWriter::flush is outside the claim (writer harness did not finish, DESIGN §13.3); first evaluation was a BUILD_ERROR because the brotli model lacked get_mut (added)")),
+              ("detected", "C14", ["h_cmp_writer_flush"], "4194304 bytes written, flush() returned, destination cut there (0 bytes): repair recovers 0 bytes")),
     "C14-B": ("C14", "load_in_cache_unauthenticated reads the tag with read_exact when the chunk is full: a stream ending right after a full chunk loses it",
               "flush + cut with an exact multiple of 128 KiB in the encryption layer, unauthenticated repair",
               ("detected", "C14", ["h_enc_load_unauth_refines", "h_enc_load_unauth_refines_short"], "unauthenticated load failed: UnexpectedEof (failed to fill whole buffer)")),
